@@ -604,6 +604,12 @@ func (e *EngineImpl) ExpiredShards(nilShardMap *map[uint64]*meta2.ShardDurationI
 		for _, pti := range e.DBPartitions[db] {
 			pti.mu.RLock()
 			for sid := range pti.shards {
+				if _, ok := (*nilShardMap)[sid]; ok {
+					// UpdateShardDurationInfo could not refresh this shard's own duration (no index
+					// builder: the shard is closing or not ready). Its cached duration may predate an
+					// ALTER RETENTION POLICY, so let the loop below decide with what meta just sent.
+					continue
+				}
 				if pti.shards[sid].IsExpired() {
 					res = append(res, pti.shards[sid].GetIdent())
 				}
